@@ -124,7 +124,7 @@ PROPERTIES = {
                    env={"VERIF_TMP": "/verif/build/run"})],
     },
     "C18": {
-        "rule": "rapidcheck: parameter files with 1-5 cell types x 1-4 face types, all ~30 tags with pairwise distinct values over 24 decades, "
+        "rule": "rapidcheck: parameter files with 1-5 cell types x 1-4 face types, all ~30 tags with pairwise distinct values over 24 decades plus 1/10 extreme magnitudes (subnormal 3.1e-310, 4.4e-200, 2.5e300), "
                 "six notations (%.17g, %e, %g, %.3E, leading +, fixed), INF/inf/Inf where documented, shuffled tag order, comments and "
                 "padding; 5/13 of the cases are read back field by field, the others carry one mutation (omitted tag, negated or "
                 "out-of-order value, boundary value 0 / S == dt) that must be rejected or accepted as the reader announces. Non-trivial = "
